@@ -134,7 +134,8 @@ void Ctx::violate(const std::string &cls, const std::string &site, const std::st
     if (violated) return;
     violated = true;
     v.cls = cls; v.site = site; v.msg = msg; v.op = cur_op;
-    logs("VIOLATION " + cls + " " + site + " " + msg);
+    // sanitizer reports contain process ids and addresses: they are not part of the event log
+    logs("VIOLATION " + cls + " " + site + " " + ((cls == "asan" || cls == "ubsan") ? std::string("(sanitizer report)") : msg));
 }
 
 LibCall::LibCall(Ctx &ctx, const Op *op, int) : c(ctx)
